@@ -40,13 +40,46 @@ def canonLabels (nb : Array (List Nat)) (mp : Nat) (labels : List (Option Nat)) 
         else new c
   ",".intercalate ((List.range n).map tok)
 
-/-- `dbscan n= mp= zd= nb=`: canonical labels -/
+/-- `dbscan n= mp= zd= nb= form=`: canonical labels, the number of clusters `c` (the model's final
+`current_cluster_id`, the `c` of `dbscan_ids_contiguous`) and, for `form=dataset`, whether the records came
+back: that form is answered THROUGH `Dbscan.transformDataset` (records = the row count `n`, old targets 7). -/
 def handleDbscan (toks : List String) : Option String := do
   let n ← argNat toks "n"; let mp ← argNat toks "mp"; let zd ← argNat toks "zd"
   let nb ← argNats2 toks "nb"
+  let form ← arg toks "form"
   if zd = 0 ∧ nb.length ≠ n then none
   let f : Option (Nat → List Nat) := if zd = 1 then none else some (nbrsOf nb.toArray)
-  some ("ok " ++ canonLabels (if zd = 1 then #[] else nb.toArray) mp (Dbscan.dbscan f mp n))
+  let c : Nat := match f with
+    | none => 0
+    | some g => (Dbscan.run g mp n).2
+  let nba := if zd = 1 then #[] else nb.toArray
+  match form with
+  | "array" => some ("ok " ++ canonLabels nba mp (Dbscan.dbscan f mp n) ++ s!" c={c}")
+  | "dataset" =>
+    let r := Dbscan.transformDataset (R := Nat) (T := Nat) (fun _ => f) id mp (n, 7)
+    some ("ok " ++ canonLabels nba mp r.2 ++ s!" c={c}" ++ (if r.1 == n then " rec=1" else " rec=0"))
+  | _ => none
+
+/-- distance function from a full matrix (`dm=`, one row per sample); an entry outside the matrix is NaN,
+which is in range of nothing -/
+def distOf (dm : Array (Array Float)) (i j : Nat) : Float :=
+  match dm[i]? with
+  | some r => r[j]?.getD (0.0 / 0.0)
+  | none => 0.0 / 0.0
+
+/-- `dbscanrq n= mp= tol= dm=`: DBSCAN in the terms of the definition — the neighbourhood is
+`Dbscan.rangeQuery dist tol n` (the function `dbscan_labelled_iff_metric` / `dbscan_clauses_metric` are
+about), `dist` the full matrix of distances the real `dist_fn` computed.  Prints the neighbourhoods too:
+they are what the linear scan returns, in its order. -/
+def handleDbscanRq (toks : List String) : Option String := do
+  let n ← argNat toks "n"; let mp ← argNat toks "mp"
+  let tol ← argF64 toks "tol"; let dm ← argF64s2 toks "dm"
+  if dm.length ≠ n ∨ dm.any (fun r => r.length != n) then none
+  let dist := distOf (dm.map List.toArray).toArray
+  let rq := Dbscan.rangeQuery dist tol n
+  let nb := (List.range n).map rq
+  some ("ok nb=" ++ showList2 toString nb ++ " " ++ canonLabels nb.toArray mp (Dbscan.dbscan (some rq) mp n)
+    ++ s!" c={(Dbscan.run rq mp n).2}")
 
 def showOpt : Option Float → String
   | none => "-"
@@ -89,14 +122,36 @@ def handleOptics (toks : List String) : Option String := do
   let dist (i j : Nat) : Float := ((look i j).orElse fun _ => look j i).getD nan
   let f : Option (Nat → List Nat) := if zd = 1 then none else some (nbrsOf nba)
   let out := Optics.optics f dist mp n
+  -- a pair the model asked for was not recorded (or a recorded distance is NaN): never default silently
+  if out.any (fun e => e.core.any Float.isNaN || e.reach.any Float.isNaN) then none
   let tie := if zd = 1 then false else hasTie (nbrsOf nba) dist n out
   let margin : Float := if tie then 0.0 else 1.0
   some ("ok " ++ ";".intercalate (out.map fun e => s!"{e.index}:{showOpt e.core}:{showOpt e.reach}")
     ++ " margin=~" ++ showF64 margin)
 
-def showTol (x : Float) : String := if x.isNaN then "nan" else showF64 x
+/-- `opticsrq n= mp= tol= dm=`: OPTICS in the terms of the definition, through `Dbscan.rangeQuery` (the
+function `optics_*_metric` are about) -/
+def handleOpticsRq (toks : List String) : Option String := do
+  let n ← argNat toks "n"; let mp ← argNat toks "mp"
+  let tol ← argF64 toks "tol"; let dm ← argF64s2 toks "dm"
+  if dm.length ≠ n ∨ dm.any (fun r => r.length != n) then none
+  let dist := distOf (dm.map List.toArray).toArray
+  let rq := Dbscan.rangeQuery dist tol n
+  let out := Optics.optics (some rq) dist mp n
+  let margin : Float := if hasTie rq dist n out then 0.0 else 1.0
+  some ("ok " ++ ";".intercalate (out.map fun e => s!"{e.index}:{showOpt e.core}:{showOpt e.reach}")
+    ++ " margin=~" ++ showF64 margin)
 
-/-- `params algo= ty= mp= tol= notol=`: constructor default, `.tolerance`, `check` -/
+/-- what the `params` response shows of a tolerance: `unbounded` from the largest finite value of the scalar
+type on (`F::infinity()` in the code, `f64::MAX` in the doc comment of `Optics::params` — the same
+neighbourhoods on finite records) -/
+def showTolP (maxFinite : Float) (x : Float) : String :=
+  if x.isNaN then "nan" else if x ≥ maxFinite then "unbounded" else showF64 x
+
+/-- `params algo= ty= mp= tol= notol=`: constructor default, `.tolerance`, then `Params.check` of the model
+(the function `*_params_check_generic/_iff/_error` are about).  Which of the two errors is reported when
+BOTH parameters are invalid is not part of any promise: written `err invalid`.  OPTICS reports one error
+kind (`InvalidValue`) for either. -/
 def handleParams (toks : List String) : Option String := do
   let algo ← arg toks "algo"; let ty ← arg toks "ty"
   let mp ← argNat toks "mp"; let notol ← argNat toks "notol"
@@ -108,28 +163,33 @@ def handleParams (toks : List String) : Option String := do
     | "f64" => some (1e-4 : Float)
     | "f32" => some ((1e-4 : Float).toFloat32.toFloat)
     | _ => none
+  let maxFinite : Float := if ty == "f32" then 3.4028234663852886e38 else 1.7976931348623157e308
   let inf : Float := 1.0 / 0.0
   match algo with
   | "dbscan" =>
     let p0 := Dbscan.Params.new small mp
     let p := if notol = 1 then p0 else p0.withTolerance tol
+    let both := decide (p.minPoints ≤ 1) && decide (p.tolerance ≤ 0)
     match p.check with
-    | .ok v => some s!"ok mp={v.minPoints} tol={showTol v.tolerance}"
-    | .error .minPoints => some "err MinPoints"
-    | .error .tolerance => some "err Tolerance"
+    | .ok v => some s!"ok mp={v.minPoints} tol={showTolP maxFinite v.tolerance}"
+    | .error e => if both then some "err invalid" else
+        match e with
+        | .minPoints => some "err MinPoints"
+        | .tolerance => some "err Tolerance"
   | "optics" =>
     let p0 := Optics.Params.new inf mp
     let p := if notol = 1 then p0 else p0.withTolerance tol
     match p.check with
-    | .ok v => some s!"ok mp={v.minPoints} tol={showTol v.tolerance}"
-    | .error .minPoints => some "err MinPoints"
-    | .error .tolerance => some "err Tolerance"
+    | .ok v => some s!"ok mp={v.minPoints} tol={showTolP maxFinite v.tolerance}"
+    | .error _ => some "err InvalidValue"
   | _ => none
 
 def handle (toks : List String) : String :=
   let r := match toks with
     | "dbscan" :: rest => handleDbscan rest
     | "optics" :: rest => handleOptics rest
+    | "dbscanrq" :: rest => handleDbscanRq rest
+    | "opticsrq" :: rest => handleOpticsRq rest
     | "params" :: rest => handleParams rest
     | _ => none
   r.getD "bad-op"
